@@ -82,6 +82,20 @@ def discover(fn, role):
                         if p["k"] == "PIdent":
                             return p["name"]
         return None
+    if kind in ("oklet", "errlet"):
+        pat = sgrep.pattern(role[2])
+        ctor = "Ok" if kind == "oklet" else "Err"
+        for n in walk(fn["body"]):
+            if n["k"] == "Let" and sgrep.match(pat, n["e"], {}):
+                p = n["pat"]
+                if p["k"] == "PTupleStruct" and last(p["path"]) == ctor and p["elems"] and p["elems"][0]["k"] == "PIdent":
+                    return p["elems"][0]["name"]
+            if n["k"] == "Match" and sgrep.match(pat, n["scrut"], {}):
+                for a in n["arms"]:
+                    p = a["pat"]
+                    if p["k"] == "PTupleStruct" and last(p["path"]) == ctor and p["elems"] and p["elems"][0]["k"] == "PIdent":
+                        return p["elems"][0]["name"]
+        return None
     if kind in ("somelet", "whilelet"):
         pat = sgrep.pattern(role[2])
         for n in walk(fn["body"]):
